@@ -1,7 +1,7 @@
 #!/usr/bin/python3
 """Stand-in for rsync / bbcp in the simulated world (all 'hosts' share one file system).
 Behaviour is scripted by the JSON file named in $VERIF_TOOLS_CONF: {"rsync": {"mode": ...}, "bbcp": {"mode": ...}}.
-modes: ok | fail | mkstemp | write_failed | truncate | garbled | wrong_md5"""
+modes: ok | fail | mkstemp | write_failed | truncate | garbled | wrong_md5 | die_tmp | die_partial"""
 import hashlib
 import json
 import os
@@ -40,7 +40,17 @@ except OSError as e:
     sys.stderr.write(f"{tool}: link_stat \"{src}\" failed: {e}\n")
     sys.exit(23)
 out = data[: len(data) // 2] if mode == "truncate" else data
-tmp = dst + ".standin-tmp"
+tmp = os.path.join(os.path.dirname(dst), "." + os.path.basename(dst) + ".Xstand")
+if mode == "die_tmp":  # killed while writing the temporary file (rsync's temporary names are random: a later run does not reuse it)
+    with open(tmp.replace(".Xstand", ".Xdead%d" % os.getpid()), "wb") as f:
+        f.write(data[: len(data) // 2] or b"?")
+    sys.stderr.write(f"{tool}: received SIGTERM, exiting (20)\n")
+    sys.exit(20)
+if mode == "die_partial":  # killed while writing in place
+    with open(dst, "wb") as f:
+        f.write(data[: len(data) // 2] or b"?")
+    sys.stderr.write(f"{tool}: received SIGTERM, exiting (20)\n")
+    sys.exit(20)
 with open(tmp, "wb") as f:
     f.write(out)
 os.replace(tmp, dst)
